@@ -98,6 +98,24 @@ def eval_case(case):
             lines = lines[:pos] + [COMMENTS[c]] + lines[pos:]
         if case.get('nl'):
             lines = [l + '\n' for l in lines]
+        if case.get('via_file'):
+            import os, tempfile
+            import io_drawer.dump as dump
+            from mc import clidrv
+            got = []
+            orig = dump.parse_dump_data
+            dump.parse_dump_data = lambda d, h, s_: got.append(bytes(d)) or []
+            with tempfile.NamedTemporaryFile('w', prefix='c13_', dir=clidrv.scratch_root(), delete=False) as f:
+                f.write(''.join(l if l.endswith('\n') else l + '\n' for l in lines))
+            try:
+                dump.parse_dump_file(f.name, 'unused.h', 'unused')
+            finally:
+                dump.parse_dump_data = orig
+                os.unlink(f.name)
+            back2 = got[0] if got else b''
+            if back2 != data:
+                bad('io:dump-file-reader', 'fmt=%s pad=%s ins=%s: the dump-file reader recovers %s, the file holds %s' % (
+                    FMT_NAMES[case['fmt']], case['pad'], case.get('ins'), back2.hex(), data.hex()))
         back = bytes(parse(lines, fmt))
         if back != data:
             bad('io:parse', 'fmt=%s pad=%s upper=%s ins=%s: got %s want %s' % (
@@ -192,6 +210,8 @@ def run_chunk(chunk):
                             for pos in range(nlines + 1):
                                 for c in range(len(COMMENTS)):
                                     do(dict(base, ins=[pos, c], nl=bool((pos + c) % 2)), n > 0)
+                                    if n % 8 == 1:
+                                        do(dict(base, ins=[pos, c], nl=True, via_file=True), True)
     elif k == 'cli':
         from mc import pelgen
         specs = pelgen.base_pel_specs()
